@@ -19,7 +19,12 @@ import (
 
 // C09: priority cli > env > JSON (file named by -config, else CFG_CONFIG_B64) > tag default.
 //
-//	E <vec> <cfgfile> <b64set> <ok> <rest> <n> { <kind> <name> <path> <envhand> <envobs> <def> <env> <jfile> <jb64> <final> <oracle> }*n
+//	E <vec> <cfgfile> <b64set> <ok> <rest> <help> <n>
+//	  { <kind> <group> <goname> <tag> <hname> <hdef> <bound> <usage> <init> <envhand> <envobs> <env> <jfile> <jb64> <final> <oracle> }*n
+//
+// group/goname/tag: where the field sits and its `flag` tag (the model derives name, default, usage and env name from
+// these); hname/hdef/envhand: the same as written by hand from the documentation; bound: Lookup(hname) exists and its
+// Value points at this field; usage/envobs: Flag.Usage/Flag.Env; init: the field right after NewFlagSet.
 //
 // hex fields; "-" empty string, "~" none, "." empty list; lists comma separated.
 // oracle: text:canon pairs for every text offered to the field (default, cli incl. overwritten
@@ -85,53 +90,86 @@ type c09B struct {
 	TLS       c09BInner
 }
 
+// ---- struct type C: tags with an empty name and a default, a lone separator, extra separators in the usage,
+// an embedded struct, json tags (renamed keys, "-")
+type C09Embedded struct {
+	Inherited int    `flag:",33,"`
+	Shade     string `flag:"||def|" json:"shade_json"`
+}
+
+type c09C struct {
+	C09Embedded
+	MaxConn uint          `flag:"|"`
+	Label   string        `flag:"a,b,c,d" json:"lbl"`
+	Note    []byte        `flag:"|note|bm90ZQ==|us|age|" json:"note,omitempty"`
+	Pct     float64       `json:"pct" flag:"pct,12.5"`
+	Quiet   bool          `flag:",true"`
+	Span    time.Duration `flag:"|span|" json:"-"`
+	I       int64         `flag:"|i64c|-9"`
+	U       uint64        `flag:"u64c"`
+}
+
 type c09Field struct {
 	kind, name, goPath, env, def string
+	jsonPath                     string // key path in the JSON document when it differs from goPath; "-" = not settable by JSON
 }
 
 // written by hand from the documentation: flag name, tag default, env name = CFG_ + group path + field name in upper snake case
 var c09FieldsA = []c09Field{
-	{"bool", "debug", "Debug", "CFG_DEBUG", "false"},
-	{"int", "port", "Port", "CFG_PORT", "8080"},
-	{"int64", "max-size", "MaxSize", "CFG_MAX_SIZE", "-1"},
-	{"uint", "workers", "Workers", "CFG_WORKERS", "4"},
-	{"uint64", "limit", "Limit", "CFG_LIMIT", "18446744073709551615"},
-	{"string", "l", "ListenAddr", "CFG_LISTEN_ADDR", ":80"},
-	{"float64", "ratio", "Ratio", "CFG_RATIO", "0.5"},
-	{"duration", "timeout", "Timeout", "CFG_TIMEOUT", "1m30s"},
-	{"bytes", "secret", "Secret", "CFG_SECRET", "c2VjcmV0"},
-	{"bool", "sub.enable", "Sub.Enable", "CFG_SUB_ENABLE", "true"},
-	{"int", "sub.count", "Sub.Count", "CFG_SUB_COUNT", "-3"},
-	{"int64", "sub.big", "Sub.Big", "CFG_SUB_BIG", "9223372036854775807"},
-	{"uint", "sub.small", "Sub.Small", "CFG_SUB_SMALL", "0"},
-	{"uint64", "sub.id", "Sub.ID64", "CFG_SUB_ID64", "0x10"},
-	{"string", "sub.name", "Sub.Name", "CFG_SUB_NAME", "a,b"},
-	{"float64", "sub.rate", "Sub.Rate", "CFG_SUB_RATE", "1e-3"},
-	{"duration", "sub.wait", "Sub.Wait", "CFG_SUB_WAIT", ""},
-	{"bytes", "sub.key", "Sub.Key", "CFG_SUB_KEY", ""},
-	{"bool", "deep-on", "Sub.Deep.On", "CFG_SUB_DEEP_ON", ""},
-	{"int", "n", "Sub.Deep.N", "CFG_SUB_DEEP_N", ""},
-	{"int64", "i64", "Sub.Deep.I64", "CFG_SUB_DEEP_I64", "0x7f"},
-	{"uint", "u", "Sub.Deep.U", "CFG_SUB_DEEP_U", "007"},
-	{"uint64", "u64", "Sub.Deep.U64", "CFG_SUB_DEEP_U64", ""},
-	{"string", "http-host", "Sub.Deep.HTTPHost", "CFG_SUB_DEEP_HTTP_HOST", "localhost"},
-	{"float64", "f", "Sub.Deep.F", "CFG_SUB_DEEP_F", "-2.5e10"},
-	{"duration", "d", "Sub.Deep.D", "CFG_SUB_DEEP_D", "1h"},
-	{"bytes", "b64", "Sub.Deep.B", "CFG_SUB_DEEP_B", "AAEC"},
+	{"bool", "debug", "Debug", "CFG_DEBUG", "false", ""},
+	{"int", "port", "Port", "CFG_PORT", "8080", ""},
+	{"int64", "max-size", "MaxSize", "CFG_MAX_SIZE", "-1", ""},
+	{"uint", "workers", "Workers", "CFG_WORKERS", "4", ""},
+	{"uint64", "limit", "Limit", "CFG_LIMIT", "18446744073709551615", ""},
+	{"string", "l", "ListenAddr", "CFG_LISTEN_ADDR", ":80", ""},
+	{"float64", "ratio", "Ratio", "CFG_RATIO", "0.5", ""},
+	{"duration", "timeout", "Timeout", "CFG_TIMEOUT", "1m30s", ""},
+	{"bytes", "secret", "Secret", "CFG_SECRET", "c2VjcmV0", ""},
+	{"bool", "sub.enable", "Sub.Enable", "CFG_SUB_ENABLE", "true", ""},
+	{"int", "sub.count", "Sub.Count", "CFG_SUB_COUNT", "-3", ""},
+	{"int64", "sub.big", "Sub.Big", "CFG_SUB_BIG", "9223372036854775807", ""},
+	{"uint", "sub.small", "Sub.Small", "CFG_SUB_SMALL", "0", ""},
+	{"uint64", "sub.id", "Sub.ID64", "CFG_SUB_ID64", "0x10", ""},
+	{"string", "sub.name", "Sub.Name", "CFG_SUB_NAME", "a,b", ""},
+	{"float64", "sub.rate", "Sub.Rate", "CFG_SUB_RATE", "1e-3", ""},
+	{"duration", "sub.wait", "Sub.Wait", "CFG_SUB_WAIT", "", ""},
+	{"bytes", "sub.key", "Sub.Key", "CFG_SUB_KEY", "", ""},
+	{"bool", "deep-on", "Sub.Deep.On", "CFG_SUB_DEEP_ON", "", ""},
+	{"int", "n", "Sub.Deep.N", "CFG_SUB_DEEP_N", "", ""},
+	{"int64", "i64", "Sub.Deep.I64", "CFG_SUB_DEEP_I64", "0x7f", ""},
+	{"uint", "u", "Sub.Deep.U", "CFG_SUB_DEEP_U", "007", ""},
+	{"uint64", "u64", "Sub.Deep.U64", "CFG_SUB_DEEP_U64", "", ""},
+	{"string", "http-host", "Sub.Deep.HTTPHost", "CFG_SUB_DEEP_HTTP_HOST", "localhost", ""},
+	{"float64", "f", "Sub.Deep.F", "CFG_SUB_DEEP_F", "-2.5e10", ""},
+	{"duration", "d", "Sub.Deep.D", "CFG_SUB_DEEP_D", "1h", ""},
+	{"bytes", "b64", "Sub.Deep.B", "CFG_SUB_DEEP_B", "AAEC", ""},
 }
 
 var c09FieldsB = []c09Field{
-	{"bool", "verbose", "Verbose", "CFG_VERBOSE", ""},
-	{"int", "level", "Level", "CFG_LEVEL", ""},
-	{"int64", "offset", "Offset", "CFG_OFFSET", ""},
-	{"uint", "cap", "Cap", "CFG_CAP", ""},
-	{"uint64", "mask", "Mask", "CFG_MASK", ""},
-	{"string", "httpproxy", "HTTPProxy", "CFG_HTTP_PROXY", ""},
-	{"float64", "scale", "Scale", "CFG_SCALE", ""},
-	{"duration", "grace", "Grace", "CFG_GRACE", ""},
-	{"bytes", "blob", "Blob", "CFG_BLOB", ""},
-	{"string", "urlpath", "TLS.URLPath", "CFG_TLS_URL_PATH", ""},
-	{"int", "retry2x", "TLS.Retry2x", "CFG_TLS_RETRY2X", ""},
+	{"bool", "verbose", "Verbose", "CFG_VERBOSE", "", ""},
+	{"int", "level", "Level", "CFG_LEVEL", "", ""},
+	{"int64", "offset", "Offset", "CFG_OFFSET", "", ""},
+	{"uint", "cap", "Cap", "CFG_CAP", "", ""},
+	{"uint64", "mask", "Mask", "CFG_MASK", "", ""},
+	{"string", "httpproxy", "HTTPProxy", "CFG_HTTP_PROXY", "", ""},
+	{"float64", "scale", "Scale", "CFG_SCALE", "", ""},
+	{"duration", "grace", "Grace", "CFG_GRACE", "", ""},
+	{"bytes", "blob", "Blob", "CFG_BLOB", "", ""},
+	{"string", "urlpath", "TLS.URLPath", "CFG_TLS_URL_PATH", "", ""},
+	{"int", "retry2x", "TLS.Retry2x", "CFG_TLS_RETRY2X", "", ""},
+}
+
+var c09FieldsC = []c09Field{
+	{"int", "inherited", "C09Embedded.Inherited", "CFG_C09_EMBEDDED_INHERITED", "33", "Inherited"},
+	{"string", "shade", "C09Embedded.Shade", "CFG_C09_EMBEDDED_SHADE", "def", "shade_json"},
+	{"uint", "maxconn", "MaxConn", "CFG_MAX_CONN", "", ""},
+	{"string", "a", "Label", "CFG_LABEL", "b", "lbl"},
+	{"bytes", "note", "Note", "CFG_NOTE", "bm90ZQ==", "note"},
+	{"float64", "pct", "Pct", "CFG_PCT", "12.5", "pct"},
+	{"bool", "quiet", "Quiet", "CFG_QUIET", "true", ""},
+	{"duration", "span", "Span", "CFG_SPAN", "", "-"},
+	{"int64", "i64c", "I", "CFG_I", "-9", ""},
+	{"uint64", "u64c", "U", "CFG_U", "", ""},
 }
 
 // ---- the documented meaning of a value text: "" = zero value, else the kind's standard-library parser
@@ -226,11 +264,15 @@ type c09Choice struct {
 	jfile  *string // canonical value assigned by the file, nil = not mentioned
 	jb64   *string
 	oracle map[string]string // text -> canon, "!" for error
+	// the carrier writes JSON null for this field: json.Unmarshal leaves the field alone (= not mentioned),
+	// except for []byte, where null assigns nil (= mentioned with the empty value)
+	nullFile, nullB64 bool
 }
 
 type c09Gen struct {
 	r            *hk.Rng
 	allowInvalid bool // this case may offer unparsable texts (Parse fails when one of them wins)
+	nulls        int  // percentage of not-mentioned fields written as JSON null
 }
 
 func (g *c09Gen) text(f c09Field, forJSON bool) string {
@@ -262,6 +304,9 @@ func (g *c09Gen) text(f c09Field, forJSON bool) string {
 
 // a JSON-assignable canonical value for the field
 func (g *c09Gen) jsonCanon(f c09Field) string {
+	if (f.kind == "string" || f.kind == "bytes") && g.r.Chance(20) {
+		return "" // JSON "" for a string / []byte field (also when the tag default is non-empty)
+	}
 	for {
 		t := g.text(f, true)
 		c, ok := c09Parse(f.kind, t)
@@ -298,6 +343,14 @@ func c09SetPath(m map[string]any, goPath string, v any) {
 		m = sub
 	}
 	m[parts[len(parts)-1]] = v
+}
+
+func c09StructField(v reflect.Value, goPath string) (sf reflect.StructField, fv reflect.Value) {
+	for _, p := range strings.Split(goPath, ".") {
+		sf, _ = v.Type().FieldByName(p)
+		v = v.FieldByName(p)
+	}
+	return sf, v
 }
 
 func c09Canon(v reflect.Value, goPath string) string {
@@ -348,7 +401,8 @@ func optHex(p *string) string {
 var c09EnvMu sync.Mutex
 
 type c09Case struct {
-	typeB    bool
+	typ      int // 0 = A, 1 = B, 2 = C
+	help     []string // occurrences of the built-in -help on the command line
 	fields   []c09Field
 	ch       []c09Choice
 	useFile  bool // -config=<file> on the command line
@@ -384,6 +438,9 @@ func c09Run(e *hk.Env, g *c09Gen, c *c09Case, dir string) (line []string, ok boo
 			}
 		}
 	}
+	for _, h := range c.help {
+		groups = append(groups, grp{[]string{h}, -2})
+	}
 	cfgPath := filepath.Join(dir, "cfg.json")
 	if c.useFile {
 		sp := [][]string{{"-config=" + cfgPath}, {"--config=" + cfgPath}, {"-config", cfgPath}, {"--config", cfgPath}}[c.cfgSpell%4]
@@ -412,11 +469,20 @@ func c09Run(e *hk.Env, g *c09Gen, c *c09Case, dir string) (line []string, ok boo
 	vec = append(vec, c.tail...)
 
 	// JSON carriers
-	mkJSON := func(sel func(c09Choice) *string) []byte {
+	mkJSON := func(sel func(c09Choice) *string, isNull func(c09Choice) bool) []byte {
 		m := map[string]any{}
 		for i, f := range c.fields {
-			if p := sel(c.ch[i]); p != nil {
-				c09SetPath(m, f.goPath, c09JSONValue(f.kind, *p))
+			jp := f.jsonPath
+			if jp == "" {
+				jp = f.goPath
+			}
+			if jp == "-" {
+				continue
+			}
+			if isNull(c.ch[i]) {
+				c09SetPath(m, jp, nil)
+			} else if p := sel(c.ch[i]); p != nil {
+				c09SetPath(m, jp, c09JSONValue(f.kind, *p))
 			}
 		}
 		b, err := json.Marshal(m)
@@ -427,7 +493,7 @@ func c09Run(e *hk.Env, g *c09Gen, c *c09Case, dir string) (line []string, ok boo
 	}
 	os.Remove(cfgPath)
 	if c.useFile && !c.fileGone {
-		if err := os.WriteFile(cfgPath, mkJSON(func(x c09Choice) *string { return x.jfile }), 0o644); err != nil {
+		if err := os.WriteFile(cfgPath, mkJSON(func(x c09Choice) *string { return x.jfile }, func(x c09Choice) bool { return x.nullFile }), 0o644); err != nil {
 			panic(err)
 		}
 	}
@@ -452,19 +518,24 @@ func c09Run(e *hk.Env, g *c09Gen, c *c09Case, dir string) (line []string, ok boo
 		}
 	}
 	if c.useB64 {
-		setenv("CFG_CONFIG_B64", base64.StdEncoding.EncodeToString(mkJSON(func(x c09Choice) *string { return x.jb64 })))
+		setenv("CFG_CONFIG_B64", base64.StdEncoding.EncodeToString(mkJSON(func(x c09Choice) *string { return x.jb64 }, func(x c09Choice) bool { return x.nullB64 })))
 	}
 	if c.decoy {
-		setenv("CFG_CONFIG", filepath.Join(dir, "decoy"+map[bool]string{false: "A", true: "B"}[c.typeB]+".json"))
+		setenv("CFG_CONFIG", filepath.Join(dir, "decoy"+string(rune('A'+c.typ))+".json"))
 		setenv("CFG_HELP", "true")
 	}
 
 	var ptr any
-	if c.typeB {
-		ptr = &c09B{}
-	} else {
+	switch c.typ {
+	case 0:
 		ptr = &c09A{}
+	case 1:
+		ptr = &c09B{}
+	default:
+		ptr = &c09C{}
 	}
+	val := reflect.ValueOf(ptr).Elem()
+	inits := make([]string, len(c.fields))
 	var fs *config.FlagSet
 	var perr error
 	panicked := ""
@@ -479,6 +550,9 @@ func c09Run(e *hk.Env, g *c09Gen, c *c09Case, dir string) (line []string, ok boo
 		if err != nil {
 			perr = fmt.Errorf("NewFlagSet: %w", err)
 			return
+		}
+		for i, f := range c.fields {
+			inits[i] = c09Canon(val, f.goPath)
 		}
 		perr = fs.Parse(append([]string(nil), vec...))
 	}()
@@ -497,18 +571,30 @@ func c09Run(e *hk.Env, g *c09Gen, c *c09Case, dir string) (line []string, ok boo
 	if c.useFile {
 		cf = hk.Hxs(cfgPath)
 	}
-	line = []string{"E", joinHex(vec), cf, map[bool]string{false: "0", true: "1"}[c.useB64], map[bool]string{false: "0", true: "1"}[ok], rest, strconv.Itoa(len(c.fields))}
+	help := "~"
+	if ok {
+		help = map[bool]string{false: "0", true: "1"}[fs.ShowUsage()]
+	}
+	line = []string{"E", joinHex(vec), cf, map[bool]string{false: "0", true: "1"}[c.useB64], map[bool]string{false: "0", true: "1"}[ok], rest, help, strconv.Itoa(len(c.fields))}
 	if c.useFile && c.fileGone {
 		line[2] = hk.Hxs(cfgPath + ".missing") // the model's file oracle knows no such file
 		// (the command line carries cfgPath, which does not exist either)
 	}
-	val := reflect.ValueOf(ptr).Elem()
 	for i, f := range c.fields {
-		envobs := ""
+		envobs, usage, bound := "", "", "0"
+		sf, fv := c09StructField(val, f.goPath)
 		if fs != nil {
 			if fl := fs.Lookup(f.name); fl != nil {
-				envobs = fl.Env
+				envobs, usage = fl.Env, fl.Usage
+				if pv := reflect.ValueOf(fl.Value); pv.Kind() == reflect.Pointer && pv.Pointer() == fv.Addr().Pointer() {
+					bound = "1"
+				}
 			}
+		}
+		parts := strings.Split(f.goPath, ".")
+		group := ""
+		for _, p := range parts[:len(parts)-1] {
+			group += p + "_"
 		}
 		final := "~"
 		if ok {
@@ -539,14 +625,17 @@ func c09Run(e *hk.Env, g *c09Gen, c *c09Case, dir string) (line []string, ok boo
 		if c.useB64 {
 			jb = optHex(c.ch[i].jb64)
 		}
-		line = append(line, f.kind, hk.Hxs(f.name), hk.Hxs(strings.ReplaceAll(f.goPath, ".", "_")), hk.Hxs(f.env), hk.Hxs(envobs),
-			hk.Hxs(f.def), optHex(c.ch[i].env), jf, jb, final, or)
+		line = append(line, f.kind, hk.Hxs(group), hk.Hxs(sf.Name), hk.Hxs(sf.Tag.Get("flag")), hk.Hxs(f.name), hk.Hxs(f.def), bound,
+			hk.Hxs(usage), hk.Hxs(inits[i]), hk.Hxs(f.env), hk.Hxs(envobs), optHex(c.ch[i].env), jf, jb, final, or)
 	}
 	return line, ok, note
 }
 
 func (g *c09Gen) choose(f c09Field, cli, env, jfile, jb64 bool) c09Choice {
 	r := g.r
+	if f.jsonPath == "-" { // json:"-": no JSON document can mention the field
+		jfile, jb64 = false, false
+	}
 	ch := c09Choice{oracle: map[string]string{}}
 	offer := func(t string) {
 		c, ok := c09Parse(f.kind, t)
@@ -574,13 +663,24 @@ func (g *c09Gen) choose(f c09Field, cli, env, jfile, jb64 bool) c09Choice {
 		ch.env = &t
 		offer(t)
 	}
+	empty := ""
 	if jfile {
 		c := g.jsonCanon(f)
 		ch.jfile = &c
+	} else if f.jsonPath != "-" && r.Intn(100) < g.nulls {
+		ch.nullFile = true
+		if f.kind == "bytes" {
+			ch.jfile = &empty
+		}
 	}
 	if jb64 {
 		c := g.jsonCanon(f)
 		ch.jb64 = &c
+	} else if f.jsonPath != "-" && r.Intn(100) < g.nulls {
+		ch.nullB64 = true
+		if f.kind == "bytes" {
+			ch.jb64 = &empty
+		}
 	}
 	return ch
 }
@@ -605,22 +705,26 @@ func runC09(e *hk.Env) error {
 	r := g.r
 
 	// decoy files: what a Parse that took the config path from the environment would read
-	for _, tb := range []bool{false, true} {
-		fields := c09FieldsA
-		if tb {
-			fields = c09FieldsB
-		}
+	allFields := [][]c09Field{c09FieldsA, c09FieldsB, c09FieldsC}
+	for ti, fields := range allFields {
 		m := map[string]any{}
 		for _, f := range fields {
+			jp := f.jsonPath
+			if jp == "" {
+				jp = f.goPath
+			}
+			if jp == "-" {
+				continue
+			}
 			decoy := map[string]string{"bool": "true", "int": "-999", "int64": "-999", "uint": "999", "uint64": "999", "string": "DECOY",
 				"float64": "-999.5", "duration": "999", "bytes": "DECOY"}[f.kind]
 			if f.def == "true" {
 				decoy = "false"
 			}
-			c09SetPath(m, f.goPath, c09JSONValue(f.kind, decoy))
+			c09SetPath(m, jp, c09JSONValue(f.kind, decoy))
 		}
 		b, _ := json.Marshal(m)
-		os.WriteFile(filepath.Join(dir, "decoy"+map[bool]string{false: "A", true: "B"}[tb]+".json"), b, 0o644)
+		os.WriteFile(filepath.Join(dir, "decoy"+string(rune('A'+ti))+".json"), b, 0o644)
 	}
 
 	total, okCount, errCount := 0, 0, 0
@@ -678,11 +782,15 @@ func runC09(e *hk.Env) error {
 		}
 	}
 
-	mk := func(typeB bool) *c09Case {
+	mk := func(typ int) *c09Case {
 		g.allowInvalid = r.Chance(12)
-		c := &c09Case{typeB: typeB, fields: c09FieldsA}
-		if typeB {
-			c.fields = c09FieldsB
+		c := &c09Case{typ: typ, fields: allFields[typ]}
+		if r.Chance(25) {
+			c.help = [][]string{{"-help"}, {"--help=false"}, {"-help=1"}, {"-help="}, {"-help", "--help=0"}, {"--help=F", "-help"}}[r.Intn(6)]
+		}
+		g.nulls = 0
+		if r.Chance(40) {
+			g.nulls = 30
 		}
 		return c
 	}
@@ -716,8 +824,8 @@ func runC09(e *hk.Env) error {
 	if e.Thorough() {
 		rounds, nRandom = 12, 40000
 	}
-	for _, tb := range []bool{false, true} {
-		nf := len(mk(tb).fields)
+	for tb := 0; tb < 3; tb++ {
+		nf := len(allFields[tb])
 		for fi := 0; fi < nf; fi++ {
 			for combo := 0; combo < 8; combo++ {
 				for car := 0; car < 4; car++ {
@@ -748,8 +856,8 @@ func runC09(e *hk.Env) error {
 	e.Stats["enumerated_cases"] = total
 	// (2) targeted shapes: env set but empty without cli; cli/env text identical to the default text while JSON says otherwise
 	t1 := total
-	for _, tb := range []bool{false, true} {
-		nf := len(mk(tb).fields)
+	for tb := 0; tb < 3; tb++ {
+		nf := len(allFields[tb])
 		for fi := 0; fi < nf; fi++ {
 			for car := 0; car < 3; car++ {
 				for shape := 0; shape < 5; shape++ {
@@ -805,7 +913,7 @@ func runC09(e *hk.Env) error {
 	e.Stats["targeted_cases"] = total - t1
 	// (3) random across fields
 	for i := 0; i < nRandom; i++ {
-		c := mk(r.Chance(30))
+		c := mk([]int{0, 0, 0, 1, 2}[r.Intn(5)])
 		carriers(c, r.Intn(4))
 		if c.useFile && r.Chance(4) {
 			c.fileGone = true
@@ -822,6 +930,6 @@ func runC09(e *hk.Env) error {
 	e.Stats["field_source_combinations(cli,env,json,default)"] = comboHist
 	e.Stats["per_kind_combinations"] = kindCombo
 	e.Stats["carriers"] = carrierHist
-	e.Stats["fields_per_case"] = map[string]int{"typeA": len(c09FieldsA), "typeB": len(c09FieldsB)}
+	e.Stats["fields_per_case"] = map[string]int{"typeA": len(c09FieldsA), "typeB": len(c09FieldsB), "typeC": len(c09FieldsC)}
 	return nil
 }
